@@ -335,7 +335,7 @@ class World:
     def special_getattr(self, ex, st, base, attr, line):
         import re as _re
 
-        if isinstance(base, _re.Pattern) and attr in ("match", "fullmatch", "search"):
+        if isinstance(base, _re.Pattern) and attr in ("match", "fullmatch", "search", "sub"):
             return PatternMethod(base, attr)
         if isinstance(base, ExcVal):
             return NotImplemented
@@ -449,6 +449,27 @@ class World:
 
     # ------------------------------------------------------------------ calls
     def call(self, ex, st, fn, args, kw, line, owner=None):
+        if isinstance(fn, PatternMethod) and fn.kind == "sub":
+            # pattern.sub(repl, text) on a CONCRETE text: the real engine finds the matches, the replacement callable is
+            # executed symbolically for each of them, the pieces are concatenated
+            repl, text = args[0], args[1]
+            if not isinstance(text, str) or kw or len(args) != 2:
+                raise Unsupported(f"regex sub on {type(text).__name__} at line {line}")
+            if isinstance(repl, str):
+                yield st, fn.pattern.sub(repl, text)
+                return
+            matches = list(fn.pattern.finditer(text))
+
+            def rec(s0, i, pos, acc):
+                if i == len(matches):
+                    yield s0, self.sym_concat(acc + [text[pos:]]) if any(not isinstance(a, str) for a in acc) else "".join(acc) + text[pos:]
+                    return
+                mo = matches[i]
+                for s1, piece in ex.call_value(s0, repl, [mo], {}, line):
+                    yield from rec(s1, i + 1, mo.end(), acc + [text[pos:mo.start()], piece])
+
+            yield from rec(st, 0, 0, [])
+            return
         if isinstance(fn, PatternMethod):
             from . import strings
 
@@ -486,6 +507,15 @@ class World:
             raise NeedsContract(f"call to non-repo python function {qualname_of(fn)} at line {line}")
         if isinstance(fn, types.MethodType):
             yield from self.call(ex, st, fn.__func__, [self.lift(fn.__self__)] + list(args), kw, line)
+            return
+        import re as _re
+
+        if isinstance(fn, types.BuiltinMethodType) and isinstance(getattr(fn, "__self__", None), _re.Match) and not _has_sym(list(args) + list(kw.values())):
+            # a real match object of a real regex on a concrete string: its accessors are run natively
+            try:
+                yield st, fn(*args, **kw)
+            except Exception as e:  # noqa: BLE001
+                ex.pending_raise(st, ExcVal(type(e), line=line))
             return
         raise NeedsContract(f"call to {fn!r} ({type(fn).__name__}) at line {line}: no stdlib contract")
 
@@ -525,6 +555,11 @@ class World:
                 return
             post = NATIVE[qn]
             yield st, self.lift(post(r, args, kw) if post else r)
+            return
+        if fn.__module__ == "pendulum.formatting.formatter" and fn.__name__ == "<lambda>":
+            # the token tables (_TOKENS_RULES, _PARSE_TOKENS, _LOCALIZABLE_TOKENS) are data made of lambdas: executed from their source
+            self.transparent_used.add(f"{fn.__module__}.<lambda>@L{fn.__code__.co_firstlineno}")
+            yield from ex.call_function_source(st, fn, args, kw, line)
             return
         if fn.__module__.startswith("pendulum.locales.") and fn.__module__ != "pendulum.locales.locale":
             # plural / ordinal rules are lambdas in the locale data files: executed from their source
@@ -1013,7 +1048,32 @@ class World:
             if isinstance(op, ast.NotEq):
                 return sym.Not(r)
             raise Unsupported(f"ordering of formatted strings at line {line}")
+        if (isinstance(a, SymStr) and isinstance(b, str)) or (isinstance(b, SymStr) and isinstance(a, str)):
+            ss, lit_ = (a, b) if isinstance(a, SymStr) else (b, a)
+            r = self._symstr_vs_literal(ss, lit_)
+            if r is not None:
+                if isinstance(op, ast.Eq):
+                    return r
+                if isinstance(op, ast.NotEq):
+                    return not r
         return self._symname_compare(op, a, b, line)
+
+    @staticmethod
+    def _symstr_vs_literal(ss, text):
+        """equality of an abstract string with a literal when the literal pieces alone decide it: the leading / trailing literal
+        pieces must fit, and every formatted piece renders at least one character.  None = cannot tell."""
+        parts = list(ss.parts)
+        head = ""
+        while parts and isinstance(parts[0], str):
+            head += parts.pop(0)
+        tail = ""
+        while parts and isinstance(parts[-1], str):
+            tail = parts.pop() + tail
+        if not parts:
+            return head + tail == text
+        if not text.startswith(head) or not text[len(head):].endswith(tail) or len(text) < len(head) + len(tail) + len([p for p in parts if not isinstance(p, str)]):
+            return False
+        return None
 
     def _symname_compare(self, op, a, b, line):
         if isinstance(a, SymName) and isinstance(b, SymName):
